@@ -32,7 +32,7 @@ CFG = dict(
              "and that no offset is skipped across successive sessions. Any number of members: a world model (one acceptor per client + the member ids and assignments the coordinator handed out) with "
              "world_projects (every client's own events are an accepted single-member history, so all theorems above hold for every member whatever the others do) and no_double_claim_in_generation; "
              "multi-member scenarios (2-3 real members, real rebalances through a join barrier) are replayed per member and, interleaved as they happened, through the world model."
-         "Second stream (grp/extra.go, oracles only): one member subscribed to TWO topics with handlers that return later than Rebalance.Timeout after their "
+         " Second stream (grp/extra.go, oracles only): one member subscribed to TWO topics with handlers that return later than Rebalance.Timeout after their "
          "claim's channel closed - every (topic, partition) of the assignment gets exactly one ConsumeClaim, Cleanup runs after every started claim returned.",
         note="Trusted: Lean kernel, sim coordinator, harness merge order (global counter taken inside the coordinator lock / at callback entry). Not modelled: timing; scenarios run at most 3 live members (the theorems quantify over any number).",
         technique="Lean 4 invariant proof over a life-cycle acceptor + bridged case tables + replay of real request/callback sequences + end-to-end oracle",
